@@ -63,6 +63,7 @@ type Config struct {
 	MaxSteps       uint64
 	NoClient       bool
 	BothTransports bool // server listens on TCP and UDP
+	SecondPort     bool // server also listens on ServerPort+1 (same transports)
 	// RawMux: drive pkg/protocol.Mux directly (the layer the mieru/mita daemons use)
 	// instead of the apis/client + apis/server wrappers: no socks5 request/response is
 	// exchanged, a client session stays in its initial state until it reads.
@@ -179,6 +180,11 @@ func (w *World) ServerConfig() *appctlpb.ServerConfig {
 	pbs := []*appctlpb.PortBinding{{Port: proto.Int32(ServerPort), Protocol: proto_(cfg.UDP)}}
 	if cfg.BothTransports {
 		pbs = append(pbs, &appctlpb.PortBinding{Port: proto.Int32(ServerPort), Protocol: proto_(!cfg.UDP)})
+	}
+	if cfg.SecondPort {
+		for _, pb := range append([]*appctlpb.PortBinding(nil), pbs...) {
+			pbs = append(pbs, &appctlpb.PortBinding{Port: proto.Int32(ServerPort + 1), Protocol: pb.Protocol})
+		}
 	}
 	sc := &appctlpb.ServerConfig{PortBindings: pbs, Users: users, TrafficPattern: cfg.ServerTP}
 	if cfg.MTU != 0 {
